@@ -20,9 +20,12 @@ import (
 var c14Media = []any{nil, []any{}, []any{"x"}, []any{"x", "y"}}
 var c14Security = []any{nil, []any{}, []any{J{}}, []any{J{"k": []any{}}}, []any{J{"k": []any{"s"}}, J{"j": []any{}}}, []any{J{"k": []any{"s"}, "j": []any{"t", "u"}}},
 	// a later alternative combines an already seen scheme with new ones; an alternative naming an undefined scheme
-	[]any{J{"k": []any{}}, J{"j": []any{}, "k": []any{"s"}, "m": []any{}}}, []any{J{"m": []any{}}, J{}, J{"undefined": []any{}}}}
+	[]any{J{"k": []any{}}, J{"j": []any{}, "k": []any{"s"}, "m": []any{}}}, []any{J{"m": []any{}}, J{}, J{"undefined": []any{}}},
+	// a scheme whose name is the concatenation of two other scheme names, alone and next to them
+	[]any{J{"jk": []any{}}}, []any{J{"j": []any{}, "k": []any{}}}, []any{J{"jk": []any{}}, J{"j": []any{}, "k": []any{}}}}
 var c14SecDefs = []any{nil, J{"k": J{"type": "basic"}}, J{"k": J{"type": "basic"}, "j": J{"type": "apiKey", "name": "n", "in": "header"}},
-	J{"k": J{"type": "basic"}, "j": J{"type": "apiKey", "name": "n", "in": "header"}, "m": J{"type": "apiKey", "name": "m", "in": "query"}}}
+	J{"k": J{"type": "basic"}, "j": J{"type": "apiKey", "name": "n", "in": "header"}, "m": J{"type": "apiKey", "name": "m", "in": "query"}},
+	J{"k": J{"type": "basic"}, "j": J{"type": "apiKey", "name": "n", "in": "header"}, "jk": J{"type": "apiKey", "name": "jk", "in": "query"}, "kj": J{"type": "basic", "description": "kj"}}}
 
 func c14Op(x *mcx.Exec, label string, forceFactors bool) J {
 	op := J{"responses": J{"200": J{"description": "ok"}}}
